@@ -834,6 +834,16 @@ func (fc *FnCtx) resolveType0(text string, pkg *types.Package) types.Type {
 		return types.NewInterfaceType(nil, nil)
 	case text == "struct{}":
 		return types.NewStruct(nil, nil)
+	case strings.HasPrefix(text, "map["):
+		// map[K]V (K without brackets)
+		if j := strings.Index(text, "]"); j > 0 {
+			k := fc.resolveType0(strings.TrimSpace(text[4:j]), pkg)
+			v := fc.resolveType0(strings.TrimSpace(text[j+1:]), pkg)
+			if k != nil && v != nil {
+				return types.NewMap(k, v)
+			}
+		}
+		return nil
 	case strings.HasPrefix(text, "<-chan "):
 		if e := fc.resolveType0(strings.TrimSpace(text[7:]), pkg); e != nil {
 			return types.NewChan(types.RecvOnly, e)
